@@ -328,6 +328,86 @@ impl Space for Calculus {
     }
 }
 
+/// primal points whose last block is tiny but not zero (|w| = t * bound, t down to 1e-15): the conjugate map
+/// must stay finite and accurate all the way to the axis
+pub struct SmallW {
+    pub kind: NKind,
+}
+const SMALL_T: [f64; 12] = [1e-3, -1e-3, 1e-6, -1e-6, 1e-8, 1e-9, -1e-9, 1e-10, 1e-12, -1e-12, 1e-15, -1e-15];
+impl SmallW {
+    fn point(&self, id: u64) -> Vec<f64> {
+        let mut d = Digits(id);
+        let t = *d.pick(&SMALL_T);
+        let base = d.take(NPTS);
+        let mut s = nonsym_point(&self.kind, false, base);
+        // the lattice point's own last block is replaced by t * (its boundary value)
+        let theta_one = {
+            // index with theta = 0.5 at the same magnitude / skew gives bound/2 in the last block
+            let mut dd = Digits(base);
+            let m = dd.take(3);
+            let _ = dd.take(6);
+            let sk = dd.take(3);
+            nonsym_point(&self.kind, false, m + 3 * 1 + 18 * sk)
+        };
+        let n = s.len();
+        match &self.kind {
+            NKind::Exp => {
+                // exponential cone: tiny slack above the boundary instead (z = y e^{x/y} (1 + |t|))
+                s[2] = s[1] * (s[0] / s[1]).exp() * (1.0 + t.abs());
+            }
+            NKind::Pow(_) => s[2] = 2.0 * theta_one[2] * t,
+            NKind::GenPow(a, _) => {
+                for j in a.len()..n {
+                    s[j] = 2.0 * theta_one[j] * t;
+                }
+            }
+        }
+        s
+    }
+}
+impl Space for SmallW {
+    fn name(&self) -> String {
+        format!("small-last-block-{:?}", self.kind)
+    }
+    fn size(&self) -> u64 {
+        SMALL_T.len() as u64 * NPTS
+    }
+    fn describe(&self, id: u64) -> Value {
+        json!({"cone": format!("{:?}", self.kind), "s": self.point(id)})
+    }
+    fn bound(&self) -> Value {
+        json!({"relative_size_of_last_block": SMALL_T, "base_points": NPTS})
+    }
+    fn run(&self, id: u64, ctx: &mut Ctx) -> CaseResult {
+        let s = self.point(id);
+        let k = &self.kind;
+        let cs = match k {
+            NKind::Exp => ConeSpec::Exp,
+            NKind::Pow(a) => ConeSpec::Pow(*a),
+            NKind::GenPow(a, d) => ConeSpec::GenPow(a.clone(), *d),
+        };
+        let ms = margin_primal(&cs, &s);
+        if !(ms > 0.0) {
+            ctx.outcome("not-interior(skipped)");
+            return Ok(());
+        }
+        let rs = (ms / norm2(&s)).min(1.0);
+        let mut any = AnyCone::new(k);
+        let g = any.view().v_gradient_primal(&s);
+        ensure!(g.iter().all(|v| v.is_finite()), "barrier-calculus:primal-gradient-not-finite", "g(s) = {:?} at s = {:?}", g, s);
+        let minus_g: Vec<f64> = g.iter().map(|x| -x).collect();
+        ensure!(margin_dual(&cs, &minus_g) > 0.0, "barrier-calculus:minus-primal-gradient-not-in-dual-cone", "s={:?} g={:?}", s, g);
+        let back = grad_ad(k, &minus_g);
+        let want: Vec<f64> = s.iter().map(|x| -x).collect();
+        let e = relerr(&back, &want);
+        ctx.measure_max("err/tol:conjugacy(small last block)", e / (1e-6 / rs));
+        ensure!(e <= 1e-6 / rs, "barrier-calculus:conjugacy Df*(-g(s))=-s", "error {:e} at s={:?} g={:?}", e, s, g);
+        ctx.transitions += 1;
+        ctx.nontrivial += 1;
+        Ok(())
+    }
+}
+
 /// membership predicates on interior / exterior / boundary points, and the starting point
 pub struct Membership {
     pub kind: NKind,
@@ -409,6 +489,7 @@ pub fn spaces(tier: &str, _seed: u64) -> Vec<Box<dyn Space>> {
     let mut v: Vec<Box<dyn Space>> = vec![];
     for k in kinds {
         v.push(Box::new(Calculus { kind: k.clone() }));
+        v.push(Box::new(SmallW { kind: k.clone() }));
         if k_numel(&k) <= 5 {
             v.push(Box::new(Membership { kind: k }));
         }
